@@ -57,6 +57,8 @@ namespace bluetoe {
             lesc_public_keys_exchanged,
             lesc_pairing_confirm_send,
             lesc_pairing_random_exchanged,
+            // the user is still asked, while the remote DHKey check is already verified
+            user_response_wait_dhkey_verified,
         };
 
         enum class authentication_requirements_flags : std::uint8_t {
@@ -239,11 +241,21 @@ namespace bluetoe {
 
             void yes_no_response( bool response ) override
             {
-                assert( this->state() == details::sm_pairing_state::user_response_wait );
+                assert( this->state() == details::sm_pairing_state::user_response_wait
+                     || this->state() == details::sm_pairing_state::user_response_wait_dhkey_verified );
 
-                this->state( response
-                    ? details::sm_pairing_state::user_response_success
-                    : details::sm_pairing_state::user_response_failed );
+                // without a verified DHKey check, the local DHKey check must wait for the remote one
+                const auto confirmed = this->state() == details::sm_pairing_state::user_response_wait
+                    ? details::sm_pairing_state::lesc_pairing_random_exchanged
+                    : details::sm_pairing_state::user_response_success;
+
+                this->state( response ? confirmed : details::sm_pairing_state::user_response_failed );
+            }
+
+            void remote_dhkey_check_verified()
+            {
+                assert( this->state() == details::sm_pairing_state::user_response_wait );
+                this->state( details::sm_pairing_state::user_response_wait_dhkey_verified );
             }
 
             device_pairing_status local_device_pairing_status() const
@@ -379,11 +391,21 @@ namespace bluetoe {
 
             void yes_no_response( bool response ) override
             {
-                assert( this->state() == details::sm_pairing_state::user_response_wait );
+                assert( this->state() == details::sm_pairing_state::user_response_wait
+                     || this->state() == details::sm_pairing_state::user_response_wait_dhkey_verified );
 
-                this->state( response
-                    ? details::sm_pairing_state::user_response_success
-                    : details::sm_pairing_state::user_response_failed );
+                // without a verified DHKey check, the local DHKey check must wait for the remote one
+                const auto confirmed = this->state() == details::sm_pairing_state::user_response_wait
+                    ? details::sm_pairing_state::lesc_pairing_random_exchanged
+                    : details::sm_pairing_state::user_response_success;
+
+                this->state( response ? confirmed : details::sm_pairing_state::user_response_failed );
+            }
+
+            void remote_dhkey_check_verified()
+            {
+                assert( this->state() == details::sm_pairing_state::user_response_wait );
+                this->state( details::sm_pairing_state::user_response_wait_dhkey_verified );
             }
 
             void pairing_algorithm( details::legacy_pairing_algorithm algo )
